@@ -1,4 +1,5 @@
 import NopModel.Lemmas.Snd
+import NopModel.Lemmas.DecOK
 /-! Soundness of the decoder with respect to the documented language: whatever `decPayload`
 accepts is in `LangP`, and denotes the value returned. -/
 namespace Nop
@@ -275,5 +276,30 @@ theorem snd_decEntry : ∀ (es : List (Nat × Bool)) (ts : List Ty) (id : Nat) (
     rintro hs out bs ⟨u, rfl, hsk⟩
     exact ⟨hsk, rfl⟩
 end
+
+/-- whatever a decoder run accepts in full is a word of the language: from the `DecOK` judgement of
+the round-trip and cross-version theorems to membership in the grammar -/
+theorem lang_of_decOK {t : Ty} {prior v : Val} {bs : Bytes} {ps : List (Int × Int)}
+    (hd : DecOK (decInto t prior) v bs ps) (hs : List Int) (hr : Resolves hs ps) : Lang hs t v bs := by
+  let s : Src := { bytes := bs, handles := hs }
+  have hrun : decInto t prior s = (.ok v, s.adv bs.length) := hd s [] rfl (by simp [s]) rfl hr
+  have hsnd : Snd (decInto t prior) (fun hs v bs => Lang hs t v bs) := by
+    unfold decInto
+    exact Snd.mono (Snd.withPrefix (fun p => snd_decPayload t p prior)) (fun _ _ _ h => h)
+  obtain ⟨b1, rest, hb, hs', _, hl⟩ := hsnd s v _ rfl hrun
+  have h3 : s.bytes = bs := rfl
+  have hlen : b1.length = bs.length := by
+    have h1 : (s.adv bs.length).bytes.length = (s.adv b1.length).bytes.length := by rw [← hs']
+    simp only [adv_bytes, List.length_drop] at h1
+    have h2 : b1.length ≤ s.bytes.length := by rw [hb]; simp
+    rw [h3] at h1 h2
+    omega
+  rw [h3] at hb
+  have hrest : rest = [] := by
+    have : bs.length = b1.length + rest.length := by rw [hb]; simp
+    exact List.eq_nil_of_length_eq_zero (by omega)
+  subst hrest
+  rw [List.append_nil] at hb
+  rw [hb]; exact hl
 
 end Nop
